@@ -1,5 +1,5 @@
 """C04 - IPC server callback order accept, created, msg*, closed, destroyed; no use-after-free."""
-from engine.qb import (AnalysisBroken, abstract_run, estr, unwrap, cval, walk, last_field, fields_of, callee_of,
+from engine.qb import (AnalysisBroken, abstract_run, estr, unwrap, cval, walk, last_field, fields_of, callee_of, cond_cut,
                        mentions_var, atoms_of, root_var, TOP)
 from rules.common import field_is, has_call, derives, dec_and_test_atom, refcount_op, value_sources
 
@@ -350,28 +350,15 @@ def r9(ctx, st):
     preds = set()
     for h in prog.all_fns(files={'lib/ipcs.c'}):
         rets = h.returns()
-        if len(h.params) != 1 or len(rets) != 1 or rets[0].e is None or list(h.events('CALL')) or list(h.events('STORE')):
+        if len(h.params) != 1 or len(rets) != 1 or rets[0].e is None:
             continue
-        sts = set()
-        good = True
-        for a in atoms_of(rets[0].e, True):
-            lf = last_field(a.l)
-            good = good and False
-        # the returned expression: a disjunction of state == X
-        def disj(e):
-            e = unwrap(e)
-            if e.get('k') == 'bin' and e.get('op') == '||':
-                return disj(e['l']) + disj(e['r'])
-            return [e]
-        parts = disj(rets[0].e)
-        vals = []
-        for pt in parts:
-            if pt.get('k') == 'bin' and pt.get('op') == '==' and last_field(pt['l']) == ('qb_ipcs_connection', 'state') and cval(unwrap(pt['r'])) is not None:
-                vals.append(cval(unwrap(pt['r'])))
-            else:
-                vals = None
-                break
-        if vals and set(vals) <= UP:
+        # nothing but a test: no store through the parameter, no transport call
+        if any(ev.kind == 'STORE' and unwrap(ev.lhs).get('k') != 'var' for ev in h.events()) or any(ev.callee in TRANSPORT for ev in h.events('CALL')):
+            continue
+
+        def in_up(a):
+            return last_field(a.l) == ('qb_ipcs_connection', 'state') and a.op == '==' and a.rc in UP
+        if cond_cut(rets[0].e, True, in_up):
             preds.add(h.name)
 
     def up(a, fb):
